@@ -1,7 +1,111 @@
 import ConfModel.Driver.Common
+import ConfModel.Model.Compression
+import ConfModel.Spec.Compression
 namespace ConfModel.Driver.C20
-open Lean ConfModel.Driver
+open Lean ConfModel.Driver ConfModel.Compression ConfModel.CompressionSpec
 
-def handle : Handler := fun op _inp _impl => bad ("C20: unknown op " ++ op)
+def kindOf (enc : Nat) : Kind :=
+  match enc with
+  | 2 => .gzip | 3 => .brotli | 4 => .zstd | 5 => .deflate | 6 => .snappy | _ => .noop
+
+def parseLook (j : Json) : Look :=
+  { resetOk := bool (field j "resetOk"),
+    read := if isNull (field j "read") then none else some (unhex (str (field j "read"))) }
+
+def parseOut (s : String) : Out :=
+  if s == "ok" then .ok else if s == "err" then .err
+  else if s.startsWith "data:" then .data (unhex (s.drop 5).toString)
+  else .panic
+
+def outStr : Out → String
+  | .ok => "ok" | .err => "err" | .data b => "data:" ++ hex b | .panic => "panic"
+
+/-- the library parameter, instantiated with what fresh instances of the real library did on
+the sources of this history -/
+def oracle (table : List (Bytes × Look)) (empty : Look) : Lib :=
+  { enc := fun b => b,
+    look := fun src => if src.isEmpty then empty else (table.lookup src).getD ⟨false, none⟩ }
+
+structure Acc where
+  st : St
+  subs : List (List String) := []      -- model results of the method calls, per step
+  outs : List Out := []                 -- model: what the caller gets, per step
+  contract : List Bool := []            -- was the instance in a state the wrappers support
+
+/-- run one step of the history on the model, call by call (as `cycle` / `hstep` do) -/
+def modelStep (l : Lib) (a : Acc) (k : String) (src : Bytes) : Acc :=
+  let s := a.st
+  if k == "valid" || k == "corrupt" || k == "trunc" then
+    let (s1, o1) := step l s (.reset src)
+    if o1 != .ok then
+      { st := s1, subs := a.subs ++ [[outStr o1]], outs := a.outs ++ [(cycle l s src).2], contract := a.contract ++ [true] }
+    else
+      let (s2, o2) := step l s1 .readAll
+      let (s3, o3) := step l s2 .close
+      let (s4, o4) := step l s3 (.reset [])
+      { st := s4, subs := a.subs ++ [[outStr o1, outStr o2, outStr o3, outStr o4]],
+        outs := a.outs ++ [(cycle l s src).2], contract := a.contract ++ [true] }
+  else
+    let h : HStep := if k == "close" then .close else if k == "resetEmpty" then .resetEmpty else .read
+    let (s1, o) := hstep l s h
+    { st := s1, subs := a.subs ++ [[outStr o]], outs := a.outs ++ [o],
+      contract := a.contract ++ [safe s || k == "resetEmpty"] }
+
+def normSub (s : String) : String := if s.startsWith "panic" then "panic" else s
+
+/-- `gzip.Reader.Close` returns the inner flate reader's state, which the repository does not
+wrap: its ok/err result is not compared (a panic is) -/
+def maskGzipClose (kind : Kind) (k : String) (subs : List String) : List String :=
+  if kind != .gzip then subs else
+  let m (s : String) := if s == "panic" then s else "-"
+  if k == "close" then subs.map m
+  else match subs with
+    | [a, b, c, d] => [a, b, m c, d]
+    | _ => subs
+
+def handle : Handler := fun op inp impl =>
+  if !(isNull (field impl "panic")) then { agree := false, holds := false, why := "panic: " ++ str (field impl "panic") } else
+  match op with
+  | "hist" =>
+    let enc := nat (field inp "enc")
+    let kind := kindOf enc
+    let steps := arr (field inp "steps")
+    let isteps := arr (field impl "steps")
+    let ks := steps.map (fun s => str (field s "k"))
+    let srcs := isteps.map (fun s => unhex (str (field s "src")))
+    let table := (isteps.filter (fun s => !(isNull (field s "fresh")))).map (fun s => (unhex (str (field s "src")), parseLook (field s "fresh")))
+    let l := oracle table (parseLook (field impl "empty"))
+    let acc := (ks.zip srcs).foldl (fun a p => modelStep l a p.1 p.2) { st := init kind }
+    let implSubs := isteps.map (fun s => (strList (field s "subs")).map normSub)
+    -- what the caller got, per step
+    let implOuts : List Out := (ks.zip implSubs).map fun p =>
+      if p.1 == "valid" || p.1 == "corrupt" || p.1 == "trunc" then
+        match p.2 with
+        | r :: rest => if r == "panic" then .panic else if r != "ok" then .err else
+            (match rest with | x :: _ => parseOut x | [] => .err)
+        | [] => .err
+      else match p.2 with | x :: _ => parseOut x | [] => .err
+    let expected : List (Option Bytes) := steps.map fun s =>
+      if str (field s "k") == "valid" then some (unhex (str (field s "data"))) else none
+    -- the property: valid messages byte-exact whatever happened before; no crash while the
+    -- instance is used as the wrappers support (a reset before the first read/close)
+    let anyPanic := ((implSubs.zip acc.contract).any fun p => p.2 && p.1.any (· == "panic"))
+    let implOutsC := (implOuts.zip acc.contract).map fun p => if !p.2 && p.1 == .panic then Out.err else p.1
+    let holds := historyOk expected implOutsC && !anyPanic
+    let mask (subs : List (List String)) := (ks.zip subs).map fun p => maskGzipClose kind p.1 p.2
+    { agree := mask implSubs == mask acc.subs && implOuts.length == steps.length, holds := holds,
+      nontrivial := ks.any (fun k => k != "valid") && ks.length > 1,
+      model := toJson acc.subs, cls := toString enc,
+      why := if holds then "" else
+        if anyPanic then "decompressor crashed" else "a valid message did not come back byte-exact on a reused instance" }
+  | "comp" =>
+    let msgs := (strList (field inp "msgs"))
+    let outs := (arr (field impl "outs")).map fun j => if isNull j then none else some (str j)
+    -- model: compressAll leaves enc m in the i-th destination; a lawful library decodes it to m
+    let holds := outs == msgs.map some
+    { agree := holds, holds := holds, nontrivial := msgs.length > 1, cls := toString (nat (field inp "enc")),
+      model := toJson msgs,
+      why := if holds then "" else "a reused compressor produced a stream that does not decode to the message" }
+  | _ => bad ("C20: unknown op " ++ op)
 
 end ConfModel.Driver.C20
